@@ -323,6 +323,7 @@ func exploreConfig(si, ci int, s *Schema, cfg *Config, lim Limits, col *collecto
 func Run(r *ev.Run) {
 	thorough := r.Thorough()
 	plans := enumerateSchemas(thorough)
+	runNested(r)
 	deadline := 150 * time.Second
 	if thorough {
 		deadline = 18 * time.Minute
